@@ -14,22 +14,24 @@ func VerifC02_FstreeQueryPrefix() {
 	root := rt.Root("/r/db")
 	fst := &FSTree{name: "t", basePath: root}
 	// a key space with shared prefixes and path separators (prefix-free at
-	// segment boundaries)
-	files := []string{"a/b1", "a/b2", "a/x", "ab/y", "c", "d/e/f"}
+	// segment boundaries; "c" and "a/x" are complete keys that other keys
+	// extend within the same segment)
+	files := []string{"a/b1", "a/b2", "a/x", "a/x1", "ab/y", "c", "c1", "d/e/f"}
 	dirs := []string{"a", "ab", "d", "d/e"}
 	for _, d := range dirs {
 		rt.WalkEntry(root+"/"+d, true)
 	}
 	for _, f := range files {
 		rt.WalkEntry(root+"/"+f, false)
-	}
-	if !rt.Symbolic() {
-		// natively the records really exist
-		for _, f := range files {
-			w, _ := record.NewWrapper("t:"+f, &record.Meta{}, 'J', []byte("{}"))
-			w.UpdateMeta()
-			_, _ = fst.Put(w)
+		// the stored files hold really marshalled records
+		w, _ := record.NewWrapper("t:"+f, &record.Meta{}, 'J', []byte("{}"))
+		w.UpdateMeta()
+		data, err := w.MarshalRecord(w)
+		if err != nil {
+			rt.Assert(false, "fstreeprefix/setup")
+			return
 		}
+		rt.FsFile(root+"/"+f, data)
 	}
 	// prefixes built from the same alphabet
 	n := 3
@@ -85,6 +87,7 @@ func VerifC02_FstreeQueryPrefix() {
 		rt.Assert(it.Err() == nil, "fstreeprefix/no-error-for-a-prefix-without-records")
 	}
 	walkFailed := it.Err() != nil
+	rt.Assert(!walkFailed, "fstreeprefix/query-finishes-without-error")
 	for _, f := range files {
 		matches := len(f) >= len(prefix) && rt.EqStr(f[:len(prefix)], prefix)
 		if read[root+"/"+f] {
@@ -92,6 +95,73 @@ func VerifC02_FstreeQueryPrefix() {
 		} else if !walkFailed {
 			rt.Assert(!matches, "fstreeprefix/every-key-with-the-prefix-is-read")
 		}
+		// and the records handed out are exactly those
+		rt.Assert(got[f] == matches, "fstreeprefix/exactly-the-records-with-the-prefix-are-returned")
 	}
 	rt.Reach("fstreeprefix-end")
+}
+
+// C03 (file-tree backend): a query lists a record only to an interface that
+// may read it, for every combination of the record's flags and the
+// interface's options. The stored files hold really marshalled records.
+func VerifC03_FstreeProtectedRecords() {
+	root := rt.Root("/r/db")
+	fst := &FSTree{name: "t", basePath: root}
+	type rec struct {
+		key           string
+		secret, jewel bool
+	}
+	recs := []rec{{"plain", false, false}, {"secret", true, false}, {"jewel", false, true}, {"both", true, true}, {"sub/secret", true, false}}
+	rt.WalkEntry(root, true)
+	rt.WalkEntry(root+"/sub", true)
+	for _, r := range recs {
+		m := &record.Meta{}
+		m.Update()
+		if r.secret {
+			m.MakeSecret()
+		}
+		if r.jewel {
+			m.MakeCrownJewel()
+		}
+		w, err := record.NewWrapper("t:"+r.key, m, 'J', []byte("{}"))
+		if err != nil {
+			rt.Assert(false, "fstreeperm/setup")
+			return
+		}
+		data, err := w.MarshalRecord(w)
+		if err != nil {
+			rt.Assert(false, "fstreeperm/setup")
+			return
+		}
+		rt.FsFile(root+"/"+r.key, data)
+		rt.WalkEntry(root+"/"+r.key, false)
+	}
+	rt.FsFaults(0)
+	rt.FsStatFromWalk(true)
+	local, internal := rt.Bool("local"), rt.Bool("internal")
+	prefix := []string{"", "s", "sub/"}[rt.Choice("prefix", 3)]
+	q := query.New("t:" + prefix)
+	if _, err := q.Check(); err != nil {
+		return
+	}
+	it, err := fst.Query(q, local, internal)
+	rt.Assert(err == nil, "fstreeperm/query-ok")
+	if err != nil {
+		return
+	}
+	got := map[string]int{}
+	for r := range it.Next {
+		got[r.DatabaseKey()]++
+	}
+	rt.Assert(it.Err() == nil, "fstreeperm/query-finishes-without-error")
+	for _, r := range recs {
+		allowed := (!r.secret || internal) && (!r.jewel || local)
+		matches := len(r.key) >= len(prefix) && r.key[:len(prefix)] == prefix
+		if allowed && matches {
+			rt.Assert(got[r.key] == 1, "fstreeperm/readable-record-listed-once")
+		} else {
+			rt.Assert(got[r.key] == 0, "fstreeperm/protected-record-not-listed")
+		}
+	}
+	rt.Reach("fstreeperm-end")
 }
